@@ -37,12 +37,16 @@ def gen_case(rng, tier):
     window = None
     if k == "text":
         bsz = rng.choice((64, 100, 128, 256, 1000, 4096, 65536))
-        size_class = rng.choice(("small", "small", "one_block", "exact_multiple", "many_blocks"))
-        n = {"small": rng.randint(1, 6), "one_block": 3, "exact_multiple": 8, "many_blocks": rng.randint(30, 120)}[size_class]
-        src = merge.gen_sources(rng, 1, bsz, max_msgs=n, containers=("plain",), allow_degenerate=False,
-                                tie_heavy=False, frac_choices=(3, 6), first_line_max=None)[0]
-        # force the requested number of messages where the generator drew fewer
-        content, msgs = src.plain, src.msgs
+        size_class = rng.choice(("small", "small", "one_block", "exact_multiple", "many_blocks", "many_blocks", "spans_codec_blocks"))
+        if size_class == "spans_codec_blocks":
+            # larger than one internal block of the codecs (bzip2 -1: 100 kB, deflate stored blocks: 64 KiB, LZ4: 64 KiB)
+            bsz = rng.choice((4096, 65536))
+            content, msgs = world.gen_big_text_log(rng, rng.choice((140_000, 300_000, 700_000)))
+        else:
+            n = {"small": rng.randint(1, 6), "one_block": 3, "exact_multiple": 8, "many_blocks": rng.randint(30, 120)}[size_class]
+            src = merge.gen_sources(rng, 1, bsz, max_msgs=n, containers=("plain",), allow_degenerate=False,
+                                    tie_heavy=False, frac_choices=(3, 6), first_line_max=None)[0]
+            content, msgs = src.plain, src.msgs
         base = "c.log"
         opts += ["--blocksz", str(bsz)]
         if rng.random() < 0.4 and msgs:
@@ -147,6 +151,8 @@ def run_case(seed, i, tier):
             cr.violations.append(Violation(cls, "kind=%s form=%s opts=%s: %s" % (kind, descr, opts, detail), rp))
         if vs:
             break
+    if len(content) > 130_000:
+        cr.probes["content_spans_several_codec_blocks"] += 1
     cr.sample = {"kind": kind, "argv": opts + [base], "plain_bytes": len(content), "forms": tried}
     return cr
 
